@@ -7,6 +7,8 @@ CONSTANTS
   CallsPer = 4
   SwapLast = TRUE
   RestoreOnFail = TRUE
+  Peekers = {}
+  AtomicAnalysis = TRUE
   UseLock = TRUE
 PROPERTY AnswersCorrect
 PROPERTY RecoversAfterRemoval
